@@ -143,21 +143,23 @@ def _tdvp_ps_forward(ttns: TTNS, ttno: TTNO, ttne: TTNEnviron, coeff: Union[comp
 def _tdvp_ps_backward(ttns: TTNS, ttno: TTNO, ttne: TTNEnviron, coeff: Union[complex, float], tau: float) -> List[int]:
     local_steps: List[int] = []
     # current node and the child that has already been processed (once popped out)
-    stack: List[Tuple[TreeNodeTensor, int]] = [(ttns.root, -1)]
+    # the children are visited in reversed order so that the sweep is the adjoint of `_tdvp_ps_forward`
+    # and the composition of the two is second order
+    stack: List[Tuple[TreeNodeTensor, int]] = [(ttns.root, len(ttns.root.children))]
     while stack:
         snode, ichild = stack[-1]
-        if ichild == -1:
+        if ichild == len(snode.children):
             ms, j = evolve_1site(snode, ttns, ttno, ttne, coeff, tau)
             snode.tensor = ms.reshape(snode.shape)
             local_steps.append(j)
-        if ichild == len(snode.children) - 1:
+        if ichild == 0:
             if snode is not ttns.root:
                 ttns.push_cano_to_parent(snode)
                 # update env
                 ttne.build_children_environ_node(snode, ttns, ttno)
             stack.pop()
             continue
-        ichild += 1
+        ichild -= 1
         child = snode.children[ichild]
         # decompose, the first index for child, the second index for parent
         ms = ttns.decompose_to_child(snode, ichild)
@@ -169,7 +171,7 @@ def _tdvp_ps_backward(ttns: TTNS, ttno: TTNO, ttne: TTNEnviron, coeff: Union[com
         ttns.merge_to_child(snode, ichild, ms.reshape(shape))
         local_steps.append(j)
         stack[-1] = snode, ichild
-        stack.append((child, -1))
+        stack.append((child, len(child.children)))
 
     return local_steps
 
